@@ -177,3 +177,74 @@ def run_truncate_decision(P, rep, rule="R-TRUNC"):
                  "the truncation test compares the input with a value computed from the limit (limit - ellipsis) instead of the limit: inputs that fit are truncated")
     else:
         rep.ok(rule, "truncate decision", P.where(fn, st[3]), "input is returned unchanged unless longer than the limit itself")
+
+
+# ---------------------------------------------------------------------------------------
+# R-UNITMIX: a character count and a byte offset are never compared or combined
+
+_mix_cache = {}
+
+
+def build_mix(P):
+    if id(P) in _mix_cache:
+        return _mix_cache[id(P)]
+
+    def source_call(fn, t):
+        f = t["f"]
+        last = f["id"].rsplit("::", 1)[1]
+        st_ = P.tstr(fn.crate, f["self_ty"]) if "self_ty" in f else ""
+        nm = f["name"]
+        if last == "count" and ("str::iter::Chars" in st_ or "Graphemes" in st_):
+            return {"chars"}
+        if last == "len" and ("core::str::" in nm or "String::len" in nm or "KString" in nm or "kstring::" in nm or "str>::len" in nm):
+            return {"bytes"}
+        if last in ("next", "next_back") and "CharIndices" in st_:
+            return {"bytes"}
+        if last in ("find", "rfind", "len_utf8") and ("core::str::" in nm or "str>::" in nm or "char" in nm):
+            return {"bytes"}
+        return set()
+
+    def sanitize(fn, t):
+        last = t["f"]["id"].rsplit("::", 1)[1]
+        return last in ("to_string", "render", "to_kstr", "as_str", "join", "collect", "split", "splitn", "trim", "to_owned", "into_owned",
+                        "get", "contains_key", "eq", "ne", "partial_cmp", "cmp", "is_empty", "chars", "graphemes", "char_indices",
+                        "with_capacity", "reserve", "new", "push", "push_str")
+
+    tn = Taint(P, LIB_CRATES, source_call, None, sanitize)
+    _mix_cache[id(P)] = tn
+    return tn
+
+
+def run_unit_mix(P, rep, only=None, rule="R-UNITMIX"):
+    """In the string/html/url filters a value counted in characters (chars().count(), graphemes().count()) is never compared with,
+    added to or subtracted from a value measured in bytes (str::len, char_indices offsets, find results, len_utf8)."""
+    tm = build_mix(P)
+    n = 0
+    bad = 0
+    for fn in sorted(P.fns.values(), key=lambda f: f.id):
+        if fn.crate not in LIB_CRATES or not in_scope(fn) or "::test" in fn.id:
+            continue
+        if only and not any(o in fn.id for o in only):
+            continue
+        k = 0
+        for b in fn.blocks:
+            for st in b["s"]:
+                if st[0] != "a" or st[2]["k"] != "bin":
+                    continue
+                op = st[2]["op"].replace("WithOverflow", "").replace("Unchecked", "")
+                if op not in ("Lt", "Le", "Gt", "Ge", "Sub", "Add", "Eq", "Ne"):
+                    continue
+                ta, tb_ = tm.tags_of_operand(fn.id, st[2]["a"]), tm.tags_of_operand(fn.id, st[2]["b"])
+                if not ta and not tb_:
+                    continue
+                n += 1
+                if ("chars" in ta and "bytes" in tb_ and "chars" not in tb_ and "bytes" not in ta) or \
+                   ("bytes" in ta and "chars" in tb_ and "chars" not in ta and "bytes" not in tb_):
+                    bad += 1
+                    rep.viol(rule, "%s %s#%d" % (fn.key, op, k), P.where(fn, st[3]),
+                             "a character count is %s a byte offset/length: the two differ as soon as the text is not ASCII" % (
+                                 "compared with" if op in ("Lt", "Le", "Gt", "Ge", "Eq", "Ne") else "combined with"))
+                    k += 1
+    if not bad:
+        rep.ok(rule, "unit scan" + (" " + ",".join(only) if only else ""), "-", "%d comparisons/sums over unit-carrying values; none mixes characters with bytes" % n)
+    rep.count(rule + ".ops", n)
